@@ -5,6 +5,7 @@ package main
 // before calling executor.New. All observations are stamped with one global atomic sequence counter.
 
 import (
+	"os"
 	"context"
 	"errors"
 	"fmt"
@@ -51,6 +52,7 @@ type nodeSpec struct {
 	maxFan  int
 	latency time.Duration
 	gate    chan struct{} // Process blocks on it while non-nil and open
+	gateFn  func()        // if set, Process blocks inside this call instead (e.g. inside a message send)
 	// async behaviour: 0 answer inline, 1 answer from another goroutine after latency, 2 keep a backlog and flush it in Shutdown
 	asyncMode int
 	structErr bool // return FBError instead of a plain error
@@ -174,6 +176,10 @@ func (v *vnode) Shutdown() error {
 	s.mu.Lock()
 	s.shutExit = nextSeq()
 	s.mu.Unlock()
+	if (s.seed+uint32(s.idx)*7)%5 == 0 {
+		// some nodes' Shutdown hooks fail; the framework logs that and the cascade goes on regardless
+		return errors.New("scripted shutdown failure")
+	}
 	return nil
 }
 
@@ -205,8 +211,11 @@ func (v *vnode) enter(event *firebolt.Event) (string, outcome) {
 	s.recv = append(s.recv, payload)
 	s.eventPtr[payload] = event
 	gate := s.gate
+	gateFn := s.gateFn
 	s.mu.Unlock()
-	if gate != nil {
+	if gateFn != nil {
+		gateFn()
+	} else if gate != nil {
 		<-gate
 	}
 	if s.latency > 0 {
@@ -228,11 +237,30 @@ func (v *vnode) exit() {
 	atomic.AddInt32(&s.cur, -1)
 }
 
+// wrappedErr is a custom error type with Unwrap around a structured error
+type wrappedErr struct {
+	msg   string
+	inner error
+}
+
+func (w *wrappedErr) Error() string { return w.msg }
+func (w *wrappedErr) Unwrap() error { return w.inner }
+
 func (s *nodeSpec) makeErr(payload string) error {
 	var err error
-	if s.structErr {
+	h := 0
+	for _, b := range []byte(payload) {
+		h = h*31 + int(b)
+	}
+	switch {
+	case s.structErr && h%3 == 0:
+		// an error that wraps a structured one: the report must carry the wrapper the node returned, not what is inside
+		err = fmt.Errorf("e%d:%s: %w", s.idx, payload, firebolt.NewFBError("E_INNER", "inner"))
+	case s.structErr && h%3 == 1:
+		err = &wrappedErr{msg: fmt.Sprintf("e%d:%s", s.idx, payload), inner: firebolt.NewFBError("E_INNER", "inner")}
+	case s.structErr:
 		err = firebolt.NewFBError("E_VERIF", fmt.Sprintf("e%d:%s", s.idx, payload))
-	} else {
+	default:
 		err = errors.New(fmt.Sprintf("e%d:%s", s.idx, payload))
 	}
 	s.mu.Lock()
@@ -397,6 +425,10 @@ type sourceScript struct {
 	failAfter   []int    // per incarnation: emit this many events then return an error (-1 = run to the end and return nil)
 	incarnation int
 	setupFails  bool
+	setupFailAt int                   // incarnation whose Setup returns an error (0 = none)
+	runFor      map[int]time.Duration // per incarnation: how long it runs before it fails
+	failTimes   []time.Time
+	startTimes  []time.Time
 	subs        []string
 	failRecv    bool
 	log         []string // factory / init / setup / start / shutdown calls
@@ -411,9 +443,25 @@ type sourceScript struct {
 	blockedEmits int
 	setupDelay  map[int]time.Duration // per incarnation: how long Setup takes
 	cancelWrap  bool                  // failures wrap context.Canceled
+	receiptIncs []int                 // which incarnation each entry of receipts was handed to
 }
 
 var currentSource *sourceScript
+
+// logf records a lifecycle call (caller holds s.mu); a child process started for a scenario that ends in os.Exit streams
+// the entries to stderr, because it never gets to print an observation
+func (s *sourceScript) logf(entry string) {
+	s.log = append(s.log, entry)
+	if os.Getenv("FBV_CHILD") != "" {
+		fmt.Fprintln(os.Stderr, "LOG "+entry)
+	}
+	switch {
+	case strings.HasPrefix(entry, "fail"):
+		s.failTimes = append(s.failTimes, time.Now())
+	case strings.HasPrefix(entry, "start"):
+		s.startTimes = append(s.startTimes, time.Now())
+	}
+}
 
 type vsource struct {
 	fbcontext.ContextAware
@@ -428,7 +476,7 @@ func newVsource() node.Source {
 	s.mu.Lock()
 	s.incarnation++
 	inc := s.incarnation
-	s.log = append(s.log, fmt.Sprintf("factory%d", inc))
+	s.logf(fmt.Sprintf("factory%d", inc))
 	s.mu.Unlock()
 	return &vsource{script: s, inc: inc, done: make(chan struct{}, 1)}
 }
@@ -436,7 +484,7 @@ func newVsource() node.Source {
 func (v *vsource) Init(id string, ctx fbcontext.FBContext) {
 	v.ContextAware.Init(id, ctx)
 	v.script.mu.Lock()
-	v.script.log = append(v.script.log, fmt.Sprintf("init%d:%s", v.inc, id))
+	v.script.logf(fmt.Sprintf("init%d:%s", v.inc, id))
 	v.script.mu.Unlock()
 }
 
@@ -445,7 +493,7 @@ func (v *vsource) Setup(config map[string]string, ch chan firebolt.Event) error 
 	s := v.script
 	s.mu.Lock()
 	defer s.mu.Unlock()
-	s.log = append(s.log, fmt.Sprintf("setup%d", v.inc))
+	s.logf(fmt.Sprintf("setup%d", v.inc))
 	s.outCh = append(s.outCh, fmt.Sprintf("%p", ch))
 	var ks []string
 	for k, val := range config {
@@ -454,7 +502,7 @@ func (v *vsource) Setup(config map[string]string, ch chan firebolt.Event) error 
 	sort.Strings(ks)
 	s.params = append(s.params, fmt.Sprintf("%p/%s", reflect.ValueOf(config).UnsafePointer(), strings.Join(ks, ",")))
 	v.Subscribe(s.subs)
-	if s.setupFails {
+	if s.setupFails || (s.setupFailAt != 0 && s.setupFailAt == v.inc) {
 		return errors.New("scripted setup failure")
 	}
 	if d := s.setupDelay[v.inc]; d > 0 {
@@ -462,14 +510,14 @@ func (v *vsource) Setup(config map[string]string, ch chan firebolt.Event) error 
 		time.Sleep(d)
 		s.mu.Lock()
 	}
-	s.log = append(s.log, fmt.Sprintf("setupdone%d", v.inc))
+	s.logf(fmt.Sprintf("setupdone%d", v.inc))
 	return nil
 }
 
 func (v *vsource) Start() error {
 	s := v.script
 	s.mu.Lock()
-	s.log = append(s.log, fmt.Sprintf("start%d", v.inc))
+	s.logf(fmt.Sprintf("start%d", v.inc))
 	s.startSeqs = append(s.startSeqs, nextSeq())
 	quota := -1
 	if v.inc-1 < len(s.failAfter) {
@@ -479,8 +527,11 @@ func (v *vsource) Start() error {
 	n := 0
 	for {
 		if quota >= 0 && n >= quota {
+			if d := s.runFor[v.inc]; d > 0 {
+				time.Sleep(d)
+			}
 			s.mu.Lock()
-			s.log = append(s.log, fmt.Sprintf("fail%d", v.inc))
+			s.logf(fmt.Sprintf("fail%d", v.inc))
 			s.lastStartReturn = nextSeq()
 			s.mu.Unlock()
 			if s.cancelWrap {
@@ -490,7 +541,7 @@ func (v *vsource) Start() error {
 		}
 		s.mu.Lock()
 		if len(s.events) == 0 {
-			s.log = append(s.log, fmt.Sprintf("end%d", v.inc))
+			s.logf(fmt.Sprintf("end%d", v.inc))
 			s.lastStartReturn = nextSeq()
 			s.mu.Unlock()
 			return nil
@@ -506,11 +557,11 @@ func (v *vsource) Start() error {
 		case <-v.done:
 			s.mu.Lock()
 			s.events = append([]string{p}, s.events...)
-			s.log = append(s.log, fmt.Sprintf("stopped%d", v.inc))
+			s.logf(fmt.Sprintf("stopped%d", v.inc))
 			s.lastStartReturn = nextSeq()
 			s.mu.Unlock()
 			return nil
-		case v.ch <- firebolt.Event{Payload: p, Created: time.Now()}:
+		case v.ch <- firebolt.Event{Payload: p, Created: time.Now(), Recovery: len(p)%3 == 0}: // some events are flagged as recovery events, as the kafka source's are
 			s.mu.Lock()
 			s.emitted++
 			s.mu.Unlock()
@@ -521,7 +572,7 @@ func (v *vsource) Start() error {
 
 func (v *vsource) Shutdown() error {
 	v.script.mu.Lock()
-	v.script.log = append(v.script.log, fmt.Sprintf("shutdown%d", v.inc))
+	v.script.logf(fmt.Sprintf("shutdown%d", v.inc))
 	v.script.mu.Unlock()
 	select {
 	case v.done <- struct{}{}:
@@ -534,6 +585,7 @@ func (v *vsource) Receive(msg fbcontext.Message) error {
 	s := v.script
 	s.mu.Lock()
 	s.receipts = append(s.receipts, fmt.Sprintf("%s:%s:%s", msg.MessageType, msg.Key, hx(msg.Payload)))
+	s.receiptIncs = append(s.receiptIncs, v.inc)
 	s.mu.Unlock()
 	if s.failRecv {
 		return errors.New("recv-fail-source")
